@@ -1,6 +1,7 @@
 package main
 
 import (
+	"bytes"
 	"encoding/json"
 	"fmt"
 	"math"
@@ -329,6 +330,45 @@ func runC13(res *lp.Result) {
 		var f32 float32
 		if _, derr := datacodec.Double.Decode(enc2, &f32, v4); derr == nil && float64(f32) != f && !math.IsNaN(f) {
 			res.Add(lp.Finding{Kind: "violation", What: "double codec silently rounds when decoding into *float32", Input: id, Impl: fmt.Sprint(f32)})
+		}
+		// *big.Float in both directions (doc.go lists it for double). A destination may be fresh (precision 0) or in use with
+		// a precision of its own: the decoded number must be exactly the double, or the call must fail. A source with more
+		// precision than a double holds must encode exactly or be refused.
+		if err2 == nil && !math.IsNaN(f) && !math.IsInf(f, 0) {
+			want := new(big.Float).SetFloat64(f)
+			for _, prec := range []uint{0, 1, 10, 24, 52, 53, 64, 200} {
+				res.Count("double -> *big.Float")
+				d := new(big.Float).SetPrec(prec)
+				if prec > 0 {
+					d.SetInt64(1) // in use
+				}
+				if _, derr := datacodec.Double.Decode(enc2, d, v4); derr == nil && d.Cmp(want) != 0 {
+					res.Add(lp.Finding{Kind: "violation", What: "double codec silently rounds when decoding into a *big.Float destination",
+						Input: fmt.Sprintf("%s into *big.Float with precision %d", id, prec), Impl: d.Text('g', 40), Model: want.Text('g', 40)})
+				}
+			}
+			for _, prec := range []uint{53, 64, 200} {
+				res.Count("double <- *big.Float")
+				src := new(big.Float).SetPrec(prec).SetFloat64(f)
+				if prec > 53 && f != 0 {
+					// one more bit below the double's last place: not a double any more
+					ulp := new(big.Float).SetPrec(prec).SetMantExp(big.NewFloat(1), src.MantExp(nil)-int(prec))
+					src2 := new(big.Float).SetPrec(prec).Add(src, ulp)
+					if back, acc := src2.Float64(); acc != big.Exact {
+						if encb, eerr := datacodec.Double.Encode(src2, v4); eerr == nil {
+							var got float64
+							datacodec.Double.Decode(encb, &got, v4)
+							res.Add(lp.Finding{Kind: "violation", What: "double codec silently rounds a *big.Float source",
+								Input: fmt.Sprintf("%s + 1 unit at precision %d", id, prec), Impl: fmt.Sprint(got), Model: src2.Text('g', 60) + " ~ " + fmt.Sprint(back)})
+						}
+					}
+				}
+				if encb, eerr := datacodec.Double.Encode(src, v4); eerr != nil {
+					res.Add(lp.Finding{Kind: "violation", What: "double codec refuses a *big.Float that is exactly a double", Input: fmt.Sprintf("%s at precision %d", id, prec), Impl: eerr.Error()})
+				} else if !bytes.Equal(encb, enc2) {
+					res.Add(lp.Finding{Kind: "violation", What: "double codec encodes a *big.Float to another number", Input: fmt.Sprintf("%s at precision %d", id, prec), Impl: fmt.Sprintf("%x", encb), Model: fmt.Sprintf("%x", enc2)})
+				}
+			}
 		}
 	}
 	// duration components: months/days 32-bit, nanos 64-bit
